@@ -59,7 +59,7 @@ class C23(Check):
     engine = "logsim"
     design_ref = "§6 C23"
     rule = ("configurations keep in {1,2,3} x cycle period in {0.25,0.5,1,2} x size threshold in {0,20,60,200,100000} x flush interval in "
-            "{1,2} x reuse x logger period, 6-40 ticks of a unique-valued record stream ('always' rule); per configuration one "
+            "{1,2} x reuse x logger period, 6-40 ticks of a unique-valued record stream ('always' rule, sometimes 'update' / 'change' with writes at drawn ticks; in 30% the judged log is the second log of its logger); per configuration one "
             "crash-free run, then one run per kill point (every simulated file-system call; all if <= 70 else 70 spread evenly), "
             "each killed run with reuse followed by a restart of the house on the surviving image logging a second stream, that "
             "second process killed again at two drawn points and a third one finishing, "
